@@ -13,12 +13,14 @@ use subtle::{
 impl BoxedUint {
     /// Returns the Ordering between `self` and `rhs` in variable time.
     pub fn cmp_vartime(&self, rhs: &Self) -> Ordering {
-        debug_assert_eq!(self.limbs.len(), rhs.limbs.len());
-        let mut i = self.limbs.len() - 1;
+        // operands of different precisions are compared as zero-padded values, like `ct_eq` / `ct_lt`
+        let mut i = max(self.limbs.len(), rhs.limbs.len()) - 1;
         loop {
             // TODO: investigate if directly comparing limbs is faster than performing a
             // subtraction between limbs
-            let (val, borrow) = self.limbs[i].sbb(rhs.limbs[i], Limb::ZERO);
+            let lhs_limb = self.limbs.get(i).copied().unwrap_or(Limb::ZERO);
+            let rhs_limb = rhs.limbs.get(i).copied().unwrap_or(Limb::ZERO);
+            let (val, borrow) = lhs_limb.sbb(rhs_limb, Limb::ZERO);
             if val.0 != 0 {
                 return if borrow.0 != 0 {
                     Ordering::Less
